@@ -425,9 +425,11 @@ def cert_jobs(case, r):
 
 # ---------------------------------------------------------------- the hypothesis of the mesh theorem, per input
 def local_max_global_delta(sh, r, d):
-    """smallest delta for which LocalMaxGlobal (Proofs/MeshClimb.v) holds for this mesh, adjacency and
-    direction, computed exactly: max over the vertices without a neighbour better by more than 10*eps
-    of (global maximum - own projection), in units of x.d"""
+    """smallest delta for which LocalMaxGlobal / LocalMaxGlobalS (Proofs/MeshClimb.v) hold for this
+    mesh, adjacency, shortcut list and direction, computed exactly: max over the vertices without a
+    neighbour better by more than 10*eps [and, for the S variant, not worse than any shortcut vertex by
+    more than 10*eps] of (global maximum - own projection), in units of x.d.
+    -> (delta, delta_S, gap between the best vertex overall and the best vertex of the adjacency)"""
     M = sc.Fm(sh["R"])
     dm = sc.qmattvec(M, sc.Fv(d))
     vs = [sc.Fv(v) for v in sh["vs"]]
@@ -435,11 +437,14 @@ def local_max_global_delta(sh, r, d):
     conn = {int(k): [int(x) for x in v] for k, v in r["connections"]}
     best = max(proj[i] for i in conn)            # vertices that occur in the adjacency
     best_all = max(proj)
-    delta = Fr(0)
+    best_short = max(proj[int(j)] for j in r["shortcuts"])
+    delta = delta_s = Fr(0)
     for i, nb in conn.items():
         if all(proj[j] - proj[i] <= EPS10 for j in nb):
             delta = max(delta, best_all - proj[i])
-    return delta, best_all - best
+            if best_short <= proj[i] + EPS10:
+                delta_s = max(delta_s, best_all - proj[i])
+    return delta, delta_s, best_all - best
 
 
 def exact_query(sh, margin, d):
@@ -728,20 +733,24 @@ def run(tier, seed, replay=None):
     R.cov["start_vertex_sweep_queries"] = stats.get("sweep_queries", 0)
 
     # hypothesis of the partial mesh theorem, evaluated exactly on this run's meshes
-    lmg = dict(pairs=0, holds_with_delta_0=0, holds_within_tolerance=0, worst_delta_over_L=0.0, unused_vertex_cases=0)
+    lmg = dict(pairs=0, LocalMaxGlobal_within_tolerance=0, LocalMaxGlobalS_with_delta_0=0, LocalMaxGlobalS_within_tolerance=0,
+               worst_delta_S_over_L=0.0, unused_vertex_cases=0)
     for c, r in zip(cases, results):
         if c["shape"]["kind"] != "mesh" or "connections" not in r:
             continue
         L = sc.shape_L(c["shape"], c["margin"] or 0.0)
         unused = False
         for d in c["dirs"][:8]:
-            delta, gap = local_max_global_delta(c["shape"], r, d)
+            delta, delta_s, gap = local_max_global_delta(c["shape"], r, d)
             unused = unused or gap > 0
             lmg["pairs"] += 1
-            lmg["holds_with_delta_0"] += 1 if delta == 0 else 0
-            lmg["holds_within_tolerance"] += 1 if delta <= Fr(1e-9) * Fr(L) else 0
-            lmg["worst_delta_over_L"] = max(lmg["worst_delta_over_L"], float(delta / Fr(L)))
+            lmg["LocalMaxGlobal_within_tolerance"] += 1 if delta <= Fr(1e-9) * Fr(L) else 0
+            lmg["LocalMaxGlobalS_with_delta_0"] += 1 if delta_s == 0 else 0
+            lmg["LocalMaxGlobalS_within_tolerance"] += 1 if delta_s <= Fr(1e-9) * Fr(L) else 0
+            lmg["worst_delta_S_over_L"] = max(lmg["worst_delta_S_over_L"], float(delta_s / Fr(L)))
         lmg["unused_vertex_cases"] += 1 if unused else 0
+    lmg["meaning"] = ("hypotheses of C03_mesh_support_partial / C03_mesh_support_shortcuts_partial evaluated exactly for the first 8 "
+                      "directions of every generated mesh; delta in units of x.d, tolerance 1e-9*L")
     R.cov["local_max_global"] = lmg
 
     cov = line_coverage(hits, TRACE_SCOPE)
